@@ -802,8 +802,105 @@ func rdocBatch(cases []Case) []string {
 	return res
 }
 
+// ---- a documented struct of another package of the same run, embedded
+
+// rdocEmbedCase: package Outer declares a struct that embeds — by value or by pointer — the documented struct Meta of
+// package Inner; both packages are generated in one Execute (neither has generated code yet when the sources are
+// loaded), once or twice.  The promoted fields answer with the docs written in Inner.
+type rdocEmbedCase struct {
+	Outer string `json:"outer"`
+	Inner string `json:"inner"`
+	Ptr   bool   `json:"ptr,omitempty"`
+	Runs  int    `json:"runs"`
+	out   string
+	have  bool
+}
+
+func (c *rdocEmbedCase) Line() string { return "" }
+func (c *rdocEmbedCase) Run() string {
+	if c.have {
+		return c.out
+	}
+	c.have = true
+	star := ""
+	if c.Ptr {
+		star = "*"
+	}
+	job := &genJob{Files: map[string]string{}, Gens: []string{"runtimedoc"}, Runs: c.Runs, ProbeCommon: rdocProbeCommon, Probes: map[string]string{}}
+	job.Files[c.Inner+"/m.go"] = fmt.Sprintf("// +gengo:runtimedoc\npackage %s\n\n// Meta is what objects share.\ntype Meta struct {\n\t// identifies the object\n\tID string\n\t// attached to the object\n\tLabels map[string]string\n}\n", c.Inner)
+	job.Files[c.Outer+"/o.go"] = fmt.Sprintf("// +gengo:runtimedoc\npackage %s\n\nimport %q\n\n// App is an object.\ntype App struct {\n\t%s%s.Meta\n\t// what the app is called\n\tName string\n}\n", c.Outer, genMod+"/"+c.Inner, star, c.Inner)
+	job.Entry = []string{"./" + c.Outer, "./" + c.Inner}
+	job.Probes[c.Outer] = fmt.Sprintf("package main\n\nimport o %q\n\nfunc init() {\n\tprobes = append(probes, func() {\n\t\tq(\"o#0\", new(o.App), \"ID\")\n\t\tq(\"o#1\", new(o.App), \"Labels\")\n\t\tq(\"o#2\", new(o.App), \"Name\")\n\t\tq(\"o#3\", new(o.App), \"Missing\")\n\t})\n}\n", genMod+"/"+c.Outer)
+	out := runGenJobs([]*genJob{job}, 1)[0]
+	switch {
+	case out.Harness != "":
+		c.out = "harness " + out.Harness
+		return c.out
+	case len(out.ExecErr) == 0:
+		c.out = "harness not run"
+		return c.out
+	}
+	for _, e := range out.ExecErr {
+		if e != "" {
+			c.out = "err " + e
+			return c.out
+		}
+	}
+	if n := len(out.BuildFail); n > 0 {
+		for pkg, msg := range out.BuildFail[n-1] {
+			if msg != "" {
+				c.out = "build-fail " + pkg + " " + clip(msg, 300)
+				return c.out
+			}
+		}
+	}
+	ans := map[string]string{}
+	for _, l := range strings.Split(out.ProbeOut, "\n") {
+		if sp := strings.SplitN(l, " ", 2); len(sp) == 2 && strings.HasPrefix(sp[0], "o#") && !strings.Contains(sp[0], "@") {
+			ans[sp[0]] = sp[1]
+		}
+	}
+	c.out = fmt.Sprintf("ID=%s Labels=%s Name=%s Missing=%s", ans["o#0"], ans["o#1"], ans["o#2"], ans["o#3"])
+	if out.ProbeErr != "" && len(ans) == 0 {
+		c.out = "build-fail probe " + clip(out.ProbeErr, 300)
+	}
+	return c.out
+}
+func (c *rdocEmbedCase) Oracle(out string) string {
+	if strings.HasPrefix(out, "harness") {
+		return ""
+	}
+	want := fmt.Sprintf("ID=some %s Labels=some %s Name=some %s Missing=none", hx("identifies the object"), hx("attached to the object"), hx("what the app is called"))
+	if out != want {
+		return fmt.Sprintf("App embeds %s.Meta of a package generated in the same run (%d run(s)): RuntimeDoc answered %s; the docs written in the sources give %s", c.Inner, c.Runs, out, want)
+	}
+	return ""
+}
+func (c *rdocEmbedCase) Shrinks() []Case { return nil }
+func (c *rdocEmbedCase) Key() string {
+	return fmt.Sprintf("%s embeds %s.Meta ptr=%v runs=%d", c.Outer, c.Inner, c.Ptr, c.Runs)
+}
+func (c *rdocEmbedCase) Classes() []string {
+	return []string{fmt.Sprintf("runs:%d", c.Runs), fmt.Sprintf("by-pointer:%v", c.Ptr), fmt.Sprintf("outer-first:%v", c.Outer < c.Inner)}
+}
+func (c *rdocEmbedCase) Nontrivial() bool { return true }
+
 func init() {
 	register(&Property{ID: "C16", Streams: []*Stream{
+		{
+			Name: "embedded-across-packages", New: func() Case { return &rdocEmbedCase{} },
+			Enum: func(tier string, yield func(Case)) {
+				for _, names := range [][2]string{{"app", "meta"}, {"zapp", "meta"}} {
+					for _, ptr := range []bool{false, true} {
+						for _, runs := range []int{1, 2} {
+							yield(&rdocEmbedCase{Outer: names[0], Inner: names[1], Ptr: ptr, Runs: runs})
+						}
+					}
+				}
+			},
+			EnumExhaustive: false,
+			Rule:           "a struct that embeds, by value or by pointer, the documented struct of another package generated in the same Execute (the embedding package before or after the embedded one in path order; one run over sources without any generated code, or two); go build of what the last run left and a probe asking the embedding type for the promoted fields, its own field and an unknown name; oracle: the docs written in the sources",
+		},
 		{
 			Name: "packages", Quick: 480, Thorough: 3600, New: func() Case { return &rdocCase{} },
 			Gen:      func(r *Rng, i int) Case { return genRdoc(r) },
